@@ -74,6 +74,9 @@ def _shadow_deepcopy(self, memo):
 
 def _concrete_shadow(t):
     import numpy as _np
+    ent = SH.st.get(t.untyped_storage().data_ptr())
+    if ent is not None and ent[2] != t.element_size():
+        return False  # raw byte view of a shadowed storage (storage copy): handled by copy_
     return all(isinstance(v, (bool, int, _np.bool_, _np.integer)) for v in SH.get(t).reshape(-1))
 
 
